@@ -29,12 +29,17 @@ def model_len(run, obj):
     return run.ghost[k]
 
 
+UNROLL_CLASSES = {'LpPacketValue', 'LpPacket', 'NetworkNack', 'CertificateV2Value', 'CertificateV2SignatureInfo', 'ValidityPeriod'}
+
+
 def is_plain_model(val):
     """nested models handled through the generic TlvModel contracts (ghost length): abstract instances and instances
     of shipped classes that do not override encoded_length/encode"""
     if isinstance(val, AbsInstance):
         return True
     if isinstance(val, SymObj) and issubclass(val.cls, tm.TlvModel):
+        if val.cls.__name__ in UNROLL_CLASSES:
+            return False
         return val.cls.encoded_length is tm.TlvModel.encoded_length and val.cls.encode is tm.TlvModel.encode
     return False
 
@@ -277,7 +282,7 @@ class _ModelFieldBase(Contract):
 class modelfield_encoded_length(_ModelFieldBase):
     fn = tm.ModelField.encoded_length
     doc = 'ModelField announces tlsize(T) + tlsize(L) + L where L is what the nested model announces'
-    raises = {TypeError: lambda cx, self, val, markers: True, ValueError: lambda cx, self, val, markers: True}
+    raises = {TypeError: lambda cx, self, val, markers: val is not None, ValueError: lambda cx, self, val, markers: val is not None}
 
     def setup(self, cx):
         return dict(self=self.mk_self(cx), val=self.mk_val(cx), markers={})
